@@ -31,6 +31,7 @@ CONSTANTS Clients,        \* e.g. {1, 2, 3}
           Progs,          \* set of programs: functions Clients -> command (records as in MC_Store!Mk)
           Inits,          \* initial states of the key: subset of {"absent", "present", "expired"}
           KeyLock, ExpiryRecheck, EntryApi,
+          CollectOwn,     \* the lazy expiry collection accounts for the entry it removed (not for the caller's earlier copy)
           FlushLock       \* flush takes every key stripe (MemcStore::flush) - without it a flush can fall
                           \* between the lookup and the store of a read-modify-write command
 
@@ -47,12 +48,14 @@ VARIABLES prog, init,
           shard,     \* holder of K's shard lock through a map entry (0 = free)
           pc, loc,   \* per client: program counter, locals
           resp,      \* per client: response frames (sequence), once done
-          sched      \* history: <<client, site>> of every step (for replay)
-vars == <<prog, init, rec, ctr, klock, shard, pc, loc, resp, sched>>
+          sched,     \* history: <<client, site>> of every step (for replay)
+          usage,     \* MemoryStore's byte counter (an integer here: below zero = the AtomicU64 has wrapped)
+          now        \* the clock (a `tick` client moves it in the middle of the other commands)
+vars == <<prog, init, rec, ctr, klock, shard, pc, loc, resp, sched, usage, now>>
 
-Now == InitNow(init)
+Now == now
 Cmd(c) == prog[c]
-NoLoc == [got |-> NoRec, hit |-> FALSE, store |-> NoRec, newcas |-> "0", n |-> "", removed |-> FALSE]
+NoLoc == [got |-> NoRec, hit |-> FALSE, store |-> NoRec, newcas |-> "0", n |-> "", removed |-> FALSE, rm |-> 0]
 
 Init == /\ prog \in Progs /\ init \in Inits
         /\ rec = InitRec(init) /\ ctr = (IF init = "absent" THEN "1" ELSE "2")
@@ -61,6 +64,8 @@ Init == /\ prog \in Progs /\ init \in Inits
         /\ loc = [c \in Clients |-> NoLoc]
         /\ resp = [c \in Clients |-> <<>>]
         /\ sched = <<>>
+        /\ usage = (IF InitRec(init).p THEN RecSize(InitRec(init)) ELSE 0)
+        /\ now = InitNow(init)
 
 Step(c, site) == sched' = Append(sched, <<c, site>>)
 Goto(c, l) == pc' = [pc EXCEPT ![c] = l]
@@ -76,9 +81,13 @@ OkResp(c, cas, n) == IF Cmd(c).q THEN <<>>
                      ELSE <<OkFrame(Cmd(c), cas)>>
 Err(c, st) == <<ErrFrame(Cmd(c), st)>>
 
+(* the clock as a client: one step *)
+TickNow(c) == /\ pc[c] = "cmd.start" /\ Cmd(c).op = "tick"
+              /\ now' = Cmd(c).ttl /\ Goto(c, "done")
+              /\ Step(c, "cmd.start") /\ UNCHANGED <<prog, init, rec, ctr, klock, shard, loc, resp, usage>>
 FlushSite(c) == IF Cmd(c).ttl > 0 THEN "map.alter_all" ELSE "map.retain"
 (* cmd.start *)
-Start(c) == /\ pc[c] = "cmd.start"
+Start(c) == /\ pc[c] = "cmd.start" /\ Cmd(c).op # "tick"
             /\ Goto(c, IF Cmd(c).op = "flush" THEN (IF FlushLock THEN "memc.lock_all" ELSE FlushSite(c))
                        ELSE IF Mutating(c) /\ KeyLock THEN "memc.lock_key" ELSE IF Cmd(c).op \in {"set"} THEN "store" ELSE IF Cmd(c).op = "delete" THEN "map.remove_if.delete" ELSE "map.get")
             /\ Step(c, "cmd.start") /\ UNCHANGED <<prog, init, rec, ctr, klock, shard, loc, resp>>
@@ -106,8 +115,9 @@ Retain(c) == /\ pc[c] = "map.retain" /\ shard = 0
              /\ Step(c, "map.retain")
              /\ IF rec.p THEN Goto(c, "acct.flush") /\ UNCHANGED <<resp, klock>>
                 ELSE Finish(c, IF Cmd(c).q THEN <<>> ELSE <<OkFrame(Cmd(c), "0")>>)
-             /\ UNCHANGED <<prog, init, ctr, shard, loc>>
-AcctFlush(c) == /\ pc[c] = "acct.flush" /\ Step(c, "memory_usage.update")
+             /\ loc' = [loc EXCEPT ![c].rm = IF rec.p THEN RecSize(rec) ELSE 0]
+             /\ UNCHANGED <<prog, init, ctr, shard>>
+AcctFlush(c) == /\ pc[c] = "acct.flush" /\ Step(c, "memory_usage.update") /\ usage' = usage - loc[c].rm
                 /\ Finish(c, IF Cmd(c).q THEN <<>> ELSE <<OkFrame(Cmd(c), "0")>>)
                 /\ UNCHANGED <<prog, init, rec, ctr, shard, loc>>
 
@@ -153,10 +163,11 @@ Collect(c) == /\ pc[c] = "map.remove_if" /\ shard = 0
               /\ Step(c, "map.remove_if")
               /\ LET gone == IF ExpiryRecheck THEN rec.p /\ IsExpired(rec) ELSE rec.p IN
                  /\ rec' = IF gone THEN NoRec ELSE rec
-                 /\ loc' = [loc EXCEPT ![c].removed = gone]
+                 /\ loc' = [loc EXCEPT ![c].removed = gone,
+                                       ![c].rm = IF ~gone THEN 0 ELSE IF CollectOwn THEN RecSize(rec) ELSE RecSize(loc[c].got)]
                  /\ Goto(c, IF gone THEN "acct.collect" ELSE "lookup.miss")
               /\ UNCHANGED <<prog, init, ctr, klock, shard, resp>>
-AcctCollect(c) == /\ pc[c] = "acct.collect" /\ Step(c, "memory_usage.update") /\ Goto(c, "lookup.miss")
+AcctCollect(c) == /\ pc[c] = "acct.collect" /\ Step(c, "memory_usage.update") /\ Goto(c, "lookup.miss") /\ usage' = usage - loc[c].rm
                   /\ UNCHANGED <<prog, init, rec, ctr, klock, shard, loc, resp>>
 (* (not a yield point: the lookup failed; continue the command) *)
 LookupMiss(c) == /\ pc[c] = "lookup.miss" /\ AfterLookup(c, FALSE, NoRec) /\ sched' = sched
@@ -177,8 +188,9 @@ FetchAdd(c) == /\ pc[c] = "cas_id.fetch_add"
 MapInsert(c) == /\ pc[c] = "map.insert" /\ shard = 0
                 /\ rec' = [loc[c].store EXCEPT !.cas = loc[c].newcas, !.ts = Now]
                 /\ Goto(c, "acct.store")
-                /\ Step(c, "map.insert") /\ UNCHANGED <<prog, init, ctr, klock, shard, loc, resp>>
-AcctStore(c) == /\ pc[c] = "acct.store" /\ Step(c, "memory_usage.update")
+                /\ loc' = [loc EXCEPT ![c].rm = IF rec.p THEN RecSize(rec) ELSE 0]
+                /\ Step(c, "map.insert") /\ UNCHANGED <<prog, init, ctr, klock, shard, resp>>
+AcctStore(c) == /\ pc[c] = "acct.store" /\ Step(c, "memory_usage.update") /\ usage' = (usage + RecSize(loc[c].store)) - loc[c].rm
                 /\ Finish(c, OkResp(c, loc[c].newcas, loc[c].n))
                 /\ shard' = IF shard = c THEN 0 ELSE shard          \* an occupied entry / get_mut guard is dropped only now
                 /\ UNCHANGED <<prog, init, rec, ctr, loc>>
@@ -190,13 +202,14 @@ MapEntry(c) ==
             IF rec.cas # loc[c].store.cas THEN Finish(c, Err(c, 2)) /\ UNCHANGED <<rec, shard, loc>>
             ELSE shard' = c /\ Goto(c, "cas_id.fetch_add") /\ UNCHANGED <<rec, loc, resp, klock>>
        ELSE /\ rec' = [loc[c].store EXCEPT !.cas = Succ1(loc[c].store.cas), !.ts = Now]
-            /\ loc' = [loc EXCEPT ![c].newcas = Succ1(loc[c].store.cas)]
+            /\ loc' = [loc EXCEPT ![c].newcas = Succ1(loc[c].store.cas), ![c].rm = 0]
             /\ Goto(c, "acct.store") /\ UNCHANGED <<shard, resp, klock>>
     /\ UNCHANGED <<prog, init, ctr>>
 EntryWrite(c) == /\ pc[c] = "entry.write"           \* (inside the entry: no yield point of its own)
                  /\ rec' = [loc[c].store EXCEPT !.cas = loc[c].newcas, !.ts = Now]
                  /\ Goto(c, "acct.store") /\ sched' = sched
-                 /\ UNCHANGED <<prog, init, ctr, klock, shard, loc, resp>>
+                 /\ loc' = [loc EXCEPT ![c].rm = IF rec.p THEN RecSize(rec) ELSE 0]
+                 /\ UNCHANGED <<prog, init, ctr, klock, shard, resp>>
 (* the code before the entry API: get_mut, and a separate insert when the key was not there *)
 MapGetMut(c) ==
     /\ pc[c] = "map.get_mut" /\ shard = 0
@@ -215,16 +228,20 @@ Delete(c) == /\ pc[c] = "map.remove_if.delete" /\ shard = 0
                 ELSE IF Cmd(c).cas = "0" \/ rec.cas = Cmd(c).cas
                      THEN rec' = NoRec /\ Goto(c, "acct.delete") /\ UNCHANGED <<resp, klock>>
                 ELSE Finish(c, Err(c, 2)) /\ UNCHANGED rec
-             /\ UNCHANGED <<prog, init, ctr, shard, loc>>
-AcctDelete(c) == /\ pc[c] = "acct.delete" /\ Step(c, "memory_usage.update")
+             /\ loc' = [loc EXCEPT ![c].rm = IF rec.p THEN RecSize(rec) ELSE 0]
+             /\ UNCHANGED <<prog, init, ctr, shard>>
+AcctDelete(c) == /\ pc[c] = "acct.delete" /\ Step(c, "memory_usage.update") /\ usage' = usage - loc[c].rm
                  /\ Finish(c, IF Cmd(c).q THEN <<>> ELSE <<OkFrame(Cmd(c), "0")>>)
                  /\ UNCHANGED <<prog, init, rec, ctr, shard, loc>>
 
 Next == \E c \in Clients :
-          \/ Start(c) \/ Lock(c) \/ MapGet(c) \/ Collect(c) \/ AcctCollect(c) \/ LookupMiss(c)
-          \/ StoreBegin(c) \/ FetchAdd(c) \/ MapInsert(c) \/ AcctStore(c) \/ MapEntry(c) \/ EntryWrite(c) \/ MapGetMut(c)
-          \/ Delete(c) \/ AcctDelete(c)
-          \/ LockAll(c) \/ AlterAll(c) \/ Retain(c) \/ AcctFlush(c)
+          \/ TickNow(c)
+          \/ /\ UNCHANGED now
+             /\ \/ /\ UNCHANGED usage
+                   /\ \/ Start(c) \/ Lock(c) \/ MapGet(c) \/ Collect(c) \/ LookupMiss(c)
+                      \/ StoreBegin(c) \/ FetchAdd(c) \/ MapInsert(c) \/ MapEntry(c) \/ EntryWrite(c) \/ MapGetMut(c)
+                      \/ Delete(c) \/ LockAll(c) \/ AlterAll(c) \/ Retain(c)
+                \/ AcctCollect(c) \/ AcctStore(c) \/ AcctDelete(c) \/ AcctFlush(c)
 AllDone == \A c \in Clients : pc[c] = "done"
 (* C16: with TLC's deadlock check on, a state in which some command cannot continue and     *)
 (* nothing else can move is an error; the finished system stutters                          *)
@@ -264,6 +281,8 @@ Explains(cands, todo) ==
                       j.tags = {} /\ JudgeAll(TickAll(j.sts, Now + Later), FinalGetLater).tags = {}
     ELSE \E c \in todo : LET j == JudgeAll(cands, EventFor(c)) IN j.tags = {} /\ Explains(j.sts, todo \ {c})
 Linearizable == AllDone => Explains(Cs0, Clients)
+(* C15 in the concurrent setting: with every command finished the counter is the size of what is stored *)
+AcctExact == AllDone => usage = (IF rec.p THEN RecSize(rec) ELSE 0)
 
 (***************************************************************************)
 (* Equivalence to a serial execution of the SEQUENTIAL MODEL OF THE CODE   *)
